@@ -20,6 +20,7 @@ class Gen:
         self.kernel = []     # (name, body)
         self.addrs = [0, 1, 2, 3, 7, 100, 2**16, 2**32 - 3, 2**32 - 1]
         self.depth_budget = 3
+        self.loop_id = 0
 
     # ---- values
     def felt(self):
@@ -185,8 +186,11 @@ class Gen:
         if k == 2:
             return ["repeat.%d" % r.randrange(1, 4)] + body + ["end"]
         n = r.randrange(0, 4)
-        # counter loop: the counter sits on top during the test only; the body must keep it -> body runs below a saved counter in memory
-        return ["push.%d mem_store.200" % n, "mem_load.200 neq.0 while.true"] + body + ["mem_load.200 sub.1 dup.0 mem_store.200 neq.0", "end"]
+        # counter loop: the counter lives in memory (one address per loop in the text, so nested loops and loops in
+        # exec-ed procedures never share a counter)
+        self.loop_id += 1
+        c = 1000 + self.loop_id
+        return ["push.%d mem_store.%d" % (n, c), "mem_load.%d neq.0 while.true" % c] + body + ["mem_load.%d sub.1 dup.0 mem_store.%d neq.0" % (c, c), "end"]
 
     def st_call(self):
         r = self.r
